@@ -120,6 +120,8 @@ func (w *World) storeLoadCycleOf(t *rapid.T, st *ev.Stats, checkAlloc bool, i in
 	if d := w2.Stats(); d.NodeCount != int64(len(s.content)) {
 		w2.Failf("restore-node-count", "restored instance has node_count=%d for %d items", d.NodeCount, len(s.content))
 	}
+	// the restored structure passes the structural predicate of C14 (LoadFromDisk ends with a snapshot: statistics are merged)
+	w2.WalkStore("restored-")
 	delta := w2.db.DeltaRestored
 	if delta > 0 {
 		st.Class("delta-restored-items", 1)
@@ -127,6 +129,8 @@ func (w *World) storeLoadCycleOf(t *rapid.T, st *ev.Stats, checkAlloc bool, i in
 	// the restored instance obeys the set/snapshot semantics for subsequent operations
 	w2.runScript(w2.drawScript(t, post))
 	w2.NewSnapshot()
+	w2.settle()
+	w2.WalkStore("restored-later-")
 	for _, j := range w2.OpenSnaps() {
 		w2.CheckSnap(j, 0, "restored-snapshot-isolation")
 	}
